@@ -234,6 +234,26 @@ theorem C13_e2e_formats_agree {files : List EFile} {r : Report}
   · rw [C13_json, ← C01.C01_e2e_no_copyright hg hl q]; simp [Reported]
   · rw [C13_json, ← C01.C01_e2e_no_licence hg hl q]; simp [Reported]
 
+/-- With names that are non-empty and slash-free (any real file system) the two readings meet in one
+    file: a line is printed iff it is one of lint's per-file lines about a covered file that an argument
+    denotes. -/
+theorem C13_e2e_lint_file_named {files : List EFile} {r : Report} {out : List Entry} {e : Nat}
+    (hl : lintE2E tbl c tree = .ok files r) (hf : lintFileE2E tbl c tree cwd args = .ok out e)
+    (hgood : ∀ q, (CoveredT c tree q ∨ Named tree cwd args q) → goodNames q) (x : Entry) :
+    x ∈ out ↔ x ∈ fmtSubset r ∧
+      ∃ p, Covered (c.walk false) "" (toNodes tree) p ∧ Named tree cwd args p ∧ entryPath x = relText p := by
+  obtain ⟨h1, h2, _, _⟩ := C13_e2e_lint_file hl hf
+  constructor
+  · intro hx
+    obtain ⟨hs, q, hq, heq⟩ := (h1 x).mp hx
+    obtain ⟨_, p, hp, hep⟩ := h2 x hx
+    refine ⟨hs, p, hp, ?_, hep⟩
+    have hpne : p ≠ [] := by obtain ⟨_, _, hne, _⟩ := hp; exact hne
+    have : p = q := relText_inj' hpne (hgood p (.inl ((C01.C01_e2e_covered p).mpr hp))) (hgood q (.inr hq)) (hep.symm.trans heq)
+    rw [this]; exact hq
+  · rintro ⟨hs, p, _, hn, hep⟩
+    exact (h1 x).mpr ⟨hs, p, hn, hep⟩
+
 end E2E
 
 -- Non-vacuity: the demo project of C06 is not compliant, and lint-file on one of its files.
@@ -253,5 +273,14 @@ example : resolveArg [("d", .dir [("a", .file [1])]), ("l", .symlink)] ["d"] ⟨
 example : resolveArg [("d", .dir [("a", .file [1])]), ("l", .symlink)] [] ⟨true, ["l"]⟩ = .missing := by decide
 example : resolveArg [("d", .dir [("a", .file [1])]), ("l", .symlink)] ["d"] ⟨false, ["..", ".."]⟩ = .outside := by decide
 example : resolveFrom [("d", .dir [("a", .file [1])])] [] ["d"] = .found ["d"] := by decide
+
+-- ... and the naming / well-formedness hypotheses of the bijection statements
+example : goodNames ["a b", "x.py"] := by
+  intro s hs
+  simp only [List.mem_cons, List.mem_nil_iff, or_false] at hs
+  rcases hs with rfl | rfl <;> decide
+example : ¬ goodNames ["a/b"] := by
+  intro h; exact (h "a/b" (by simp)).2 (by decide)
+example : wfEntries [("a.py", .file [35]), ("d", .dir [("a.py", .file [])])] := by simp [wfEntries, wfNode]
 
 end C13
